@@ -47,12 +47,40 @@ def program(sym: Any) -> List[List[Tuple[str, Mark]]]:
     else:
         pairs = [(s, d) for s in range(3) for d in range(s + 1, 4)]
         s, d = pairs[sym.choice("n4_rec", len(pairs))]
-        m = ("rec", s, d, 3)
+        m = ("rec", s, d, 2)
     prog[4] = [("x", m)]
     second = sym.choice("n4_second", 5) - 1
     if second >= 0:
         prog[4].append(("y", ("in", second)))
+    # well-formed recurrent marks: the start node lies on a dependency path to the destination
+    for i in (3, 4):
+        for _, mk in prog[i]:
+            if mk[0] == "rec" and mk[1] not in ancestors(prog, mk[2]):
+                sym.assume(False)
     return prog
+
+
+def targets(m: Mark) -> List[int]:
+    if m[0] == "in":
+        return [m[1]]
+    if m[0] == "sw":
+        return [m[1]] + [c for _, c in m[2]]
+    if m[0] == "oneof":
+        return list(m[1])
+    return [m[2]]
+
+
+def ancestors(prog: List[List[Tuple[str, Mark]]], node: int) -> List[int]:
+    seen: List[int] = []
+    stack = [node]
+    while stack:
+        c = stack.pop()
+        for _, m in prog[c]:
+            for t in targets(m):
+                if t not in seen:
+                    seen.append(t)
+                    stack.append(t)
+    return seen
 
 
 def nid(i: int) -> str:
